@@ -5,6 +5,7 @@ import (
 	"encoding/json"
 	"fmt"
 	"net"
+	"strings"
 	"unsafe"
 
 	stun "github.com/pion/stun/v3"
@@ -36,6 +37,8 @@ var c08Msgs = func() [][]byte {
 		// re-encoding in place moves every later value left by less than its own length
 		ref.Encode(0x0001, tid(0xA0), []ref.EncodeAttr{{Type: 0x0024, Value: v(4, 15)}, {Type: 0x0006, Value: v(13, 16)}, {Type: 0x8022, Value: v(30, 17)}, {Type: 0x0014, Value: v(1, 18)}}),
 		ref.Encode(0x0001, tid(0xB0), []ref.EncodeAttr{{Type: 0x7F00, Value: v(0, 0)}, {Type: 0x0006, Value: v(7, 19)}, {Type: 0x0015, Value: v(10, 20)}}),
+		// well-framed, but the last attribute is an XOR-MAPPED-ADDRESS that announces IPv6 and carries 10 address bytes
+		ref.Encode(0x0101, tid(0xC0), []ref.EncodeAttr{{Type: 0x0006, Value: v(5, 21)}, {Type: 0x0020, Value: append([]byte{0, 2, 0x12, 0x34}, v(10, 22)...)}}),
 	}
 	// three that fail to decode
 	bad1 := append([]byte(nil), msgs[3]...)
@@ -171,9 +174,7 @@ func c08Apply(m *stun.Message, u int, poison byte) error {
 	case 7:
 		err = m.GobDecode(data)
 	case 8:
-		// (only with at least two attributes: Encode on an attribute list emptied by hand writes the header before it
-		// resets Length, which no operation the property lists can set up)
-		if _, err = m.Write(data); err == nil && len(m.Attributes) >= 2 {
+		if _, err = m.Write(data); err == nil && len(m.Attributes) >= 1 {
 			m.Attributes = m.Attributes[1:]
 			m.Encode()
 		}
@@ -210,6 +211,22 @@ func c08Poison(m *stun.Message, poison byte) {
 	}
 }
 
+// c08Getters renders what the address getters read from m (they build their result from the value bytes; the other
+// getters return views of Raw, which the attribute comparison covers).
+func c08Getters(m *stun.Message) string {
+	if !m.Contains(stun.AttrXORMappedAddress) && !m.Contains(stun.AttrXORPeerAddress) && !m.Contains(stun.AttrMappedAddress) {
+		return ""
+	}
+	var sb strings.Builder
+	var x stun.XORMappedAddress
+	fmt.Fprint(&sb, x.GetFrom(m), x.IP, x.Port, ";")
+	var xp stun.XORMappedAddress
+	fmt.Fprint(&sb, xp.GetFromAs(m, stun.AttrXORPeerAddress), xp.IP, xp.Port, ";")
+	var ma stun.MappedAddress
+	fmt.Fprint(&sb, ma.GetFrom(m), ma.IP, ma.Port, ";")
+	return sb.String()
+}
+
 type c08Case struct {
 	Uses   []int `json:"uses"`
 	Poison byte  `json:"poison"`
@@ -244,6 +261,10 @@ func c08Same(a, b *stun.Message) string {
 		if x.Type != y.Type || x.Length != y.Length || !bytes.Equal(x.Value, y.Value) {
 			return fmt.Sprintf("attribute %d differs: reused (%v,%d,%x) fresh (%v,%d,%x)", i, x.Type, x.Length, clip(x.Value), y.Type, y.Length, clip(y.Value))
 		}
+	}
+	// what the typed getters read from the two messages ("decoded content")
+	if ga, gb := c08Getters(a), c08Getters(b); ga != gb {
+		return fmt.Sprintf("typed getters read %q from the reused message and %q from the fresh one", clipS(ga), clipS(gb))
 	}
 	return ""
 }
@@ -333,7 +354,7 @@ func c08Run(k c08Case) (outcome, key, detail string) {
 				}
 				if u < nd && u/len(c08Msgs) == 8 {
 					// absolute check: the re-encoded message is the canonical encoding of the attributes that were kept
-					if pm, _ := ref.Parse(c08Msgs[u%len(c08Msgs)]); pm != nil && len(pm.Attrs) >= 2 {
+					if pm, _ := ref.Parse(c08Msgs[u%len(c08Msgs)]); pm != nil && len(pm.Attrs) >= 1 {
 						var keep []ref.EncodeAttr
 						for i, a := range pm.Attrs {
 							if i > 0 {
@@ -354,6 +375,25 @@ func c08Run(k c08Case) (outcome, key, detail string) {
 					key, detail = "clone-fails", cerr.Error()
 					return
 				}
+				// a clone made from inside a ForEach callback (the source's attribute list is narrowed there), and one made
+				// after the caller assigned Type without writing it: a clone is a decode of the source's bytes
+				var inside *stun.Message
+				if len(m.Attributes) >= 2 {
+					inside = new(stun.Message)
+					got := false
+					_ = m.ForEach(m.Attributes[len(m.Attributes)-1].Type, func(mm *stun.Message) error {
+						if !got {
+							got = true
+							_ = mm.CloneTo(inside)
+						}
+						return nil
+					})
+				}
+				edited := new(stun.Message)
+				oldType := m.Type
+				m.Type = stun.NewType(stun.Method(0x7AB), stun.ClassIndication)
+				_ = m.CloneTo(edited)
+				m.Type = oldType
 				want := append([]byte(nil), m.Raw...)
 				for j := range m.Raw {
 					m.Raw[j] = k.Poison
@@ -377,6 +417,16 @@ func c08Run(k c08Case) (outcome, key, detail string) {
 				if derr := cd.Decode(); derr == nil {
 					if d := c08Same(clone, cd); d != "" {
 						key, detail = "clone-aliased", "clone content changed with the source: "+d
+						return
+					}
+					if inside != nil {
+						if d := c08Same(inside, cd); d != "" {
+							key, detail = "clone-differs", "a clone made from inside a ForEach callback is not a decode of the source's bytes: "+d
+							return
+						}
+					}
+					if d := c08Same(edited, cd); d != "" {
+						key, detail = "clone-differs", "a clone made after the caller assigned m.Type (without writing it) is not a decode of the source's bytes: "+d
 						return
 					}
 				}
